@@ -182,6 +182,9 @@ func c17Scenarios(tier string) []Spec {
 				}
 				for _, rs := range w.recs {
 					for _, r := range rs {
+						if r.unstored {
+							fs = append(fs, sched.Finding{Key: "returned-entry-not-stored-at-return", What: fmt.Sprintf("%s returned an entry whose block was not in the store at the instant of the return", r.name)})
+						}
 						if r.entry != nil && r.err == nil {
 							if _, err := ipfslog.NewFromEntryHash(world.Ctx, view, world.IDs[0], r.entry.GetHash(), &ipfslog.LogOptions{ID: "X"}, &ipfslog.FetchOptions{}); err != nil || !view.Has(r.entry.GetHash()) {
 								fs = append(fs, sched.Finding{Key: "returned-entry-not-stored", What: fmt.Sprintf("%s returned an entry whose block does not load: %v", r.name, err)})
@@ -200,9 +203,40 @@ func c17Scenarios(tier string) []Spec {
 			w.obs.add(slot, "publish-error: "+err.Error())
 			return
 		}
+		if !w.st.Has(c) { // no scheduling point since the return
+			w.obs.add(slot, "manifest-not-stored-at-return")
+		}
 		addPub(pubs, c)
 	}
+	twin := func(w *w13) *ipfslog.IPFSLog {
+		// a second instance of log A (same identity, same id, same state): what it writes is byte-identical to what A writes
+		l, err := ipfslog.NewFromEntry(world.Ctx, w.st, world.IDs[0], w.a.Heads().Slice(), &ipfslog.LogOptions{ID: "X"}, &iface.FetchOptions{})
+		if err != nil {
+			panic(err)
+		}
+		w.st.ResetCalls()
+		return l
+	}
 	return []Spec{
+		mk("C17/publish|publish (identical manifest)", 2, func(w *w13, pubs *[]cid.Cid) []func() {
+			return []func(){func() { pub(w, 0, pubs) }, func() { pub(w, 1, pubs) }}
+		}),
+		mk("C17/append|append(twin) (identical entry)", 2, func(w *w13, pubs *[]cid.Cid) []func() {
+			t := twin(w)
+			return []func(){func() { w.appendOp(0, w.a, "x1") }, func() { w.appendOp(1, t, "x1") }}
+		}),
+		mk("C17/append;publish|append(twin);publish(twin)", 2, func(w *w13, pubs *[]cid.Cid) []func() {
+			t := twin(w)
+			return []func(){func() { w.appendOp(0, w.a, "x1"); pub(w, 0, pubs) }, func() {
+				w.appendOp(1, t, "x1")
+				if c, err := t.ToMultihash(world.Ctx); err == nil {
+					if !w.st.Has(c) {
+						w.obs.add(1, "manifest-not-stored-at-return")
+					}
+					addPub(pubs, c)
+				}
+			}}
+		}),
 		mk("C17/append|publish", 2, func(w *w13, pubs *[]cid.Cid) []func() {
 			return []func(){func() { w.appendOp(0, w.a, "x1") }, func() { pub(w, 1, pubs) }}
 		}),
